@@ -10,6 +10,7 @@ import numpy as np
 TOL = {'lp': 1e-6, 'soc': 2e-5, 'exp': 5e-4}
 PHAT = np.array([0.5, 0.3, 0.2])
 QM = np.array([[2.0, 0.5], [0.5, 1.0]])
+PB = np.array([[2, 3], [3, 2]])
 
 
 def _ent(v):
@@ -30,7 +31,10 @@ ATOMS = {
     'G': [dict(name='pnorm3', n=2, ew=False, kind='cvx', cone='soc', lo=-3, hi=3, r=2.0, mk=lambda rso, x: rso.pnorm(x, 3), f=lambda a: (np.abs(a) ** 3).sum() ** (1 / 3.0)),
           dict(name='pnorm3_2', n=2, ew=False, kind='cvx', cone='soc', lo=-3, hi=3, r=2.0, mk=lambda rso, x: rso.pnorm(x, [3, 2]), f=lambda a: (np.abs(a) ** 1.5).sum() ** (1 / 1.5))],
     'T': [dict(name='power3', n=2, ew=True, kind='cvx', cone='soc', lo=-3, hi=3, r=3.375, mk=lambda rso, x: rso.power(x, 3), f=lambda a: np.abs(a) ** 3),
-          dict(name='power3_2', n=2, ew=True, kind='cvx', cone='soc', lo=-3, hi=3, r=2.0, mk=lambda rso, x: rso.power(x, 3, 2), f=lambda a: np.abs(a) ** 1.5)],
+          dict(name='power3_2', n=2, ew=True, kind='cvx', cone='soc', lo=-3, hi=3, r=2.0, mk=lambda rso, x: rso.power(x, 3, 2), f=lambda a: np.abs(a) ** 1.5),
+          # exponent TABLE broadcast against a smaller argument: x of shape (2,) against p of shape (2, 2)
+          dict(name='power_bcast', n=2, ew=True, out=(2, 2), constr_only=True, kind='cvx', cone='soc', lo=-3, hi=3, r=2.0,
+               mk=lambda rso, x: rso.power(x, PB), f=lambda a: np.abs(a)[None, :] ** PB)],
     'C': [dict(name='gmean', n=2, ew=False, kind='ccv', cone='soc', lo=0.1, hi=4, r=1.5, mk=lambda rso, x: rso.gmean(x), f=lambda a: math.sqrt(a[0] * a[1]))],
     'N': [dict(name='pnorm_exc', n=2, ew=False, kind='cvx', cone='exp', lo=-3, hi=3, r=2.0, mk=lambda rso, x: rso.pnorm(x, 2.5), f=lambda a: (np.abs(a) ** 2.5).sum() ** (1 / 2.5))],
     'X': [dict(name='exp', n=2, ew=True, kind='cvx', cone='exp', lo=-2, hi=3, r=3.0, mk=lambda rso, x: rso.exp(x), f=lambda a: np.exp(a))],
@@ -101,7 +105,13 @@ def run_atom(job):
     if it['pos'] == 'constr':
         # user writes   k*f(x) + c <= k*r + c   (or >= for concave); the objective pushes x outwards
         r = atom['r']
-        rr = (r * np.ones(atom['n']) if (ew and not summed and vec) else r)
+        if ew and not summed and vec:
+            out_shape = atom.get('out', (atom['n'],))
+            # a DIFFERENT limit per entry, so that entries paired with the wrong right-hand side are visible
+            fac = np.array([1.0, 1.7, 0.6, 1.3, 0.8, 1.5])
+            rr = r * np.resize(fac, int(np.prod(out_shape))).reshape(out_shape)      # neither increasing nor decreasing
+        else:
+            rr = r
         if summed:
             rr = r * 1.6
         lhs = k * expr + c
@@ -120,7 +130,7 @@ def run_atom(job):
         viol = float(np.max(val - lim)) if cvx else float(np.max(lim - val))
         objv = float(m.get())
         out = dict(base, status='ok', x=a.tolist(), value=np.asarray(val).tolist(), limit=np.asarray(lim).tolist(), violation=viol, obj=objv)
-        if viol > 10 * tol * (1 + abs(r)):
+        if viol > 10 * tol * (1 + abs(r)) * 3:
             out['sig'] = 'C06:constraint-not-enforced:%s:%s' % (tag, fe)
         elif viol > tol * (1 + abs(r)):
             out['inconclusive'] = True
@@ -130,6 +140,8 @@ def run_atom(job):
         out['active'] = bool(viol > -1e-3 * (1 + abs(r)))
         return out
     # objective position:  min k*f(x) + c - lin(x)   (max for concave), box only
+    if atom.get('constr_only'):
+        return dict(base, status='ok', skipped='objective form not defined for this atom')
     if ew and not summed:
         expr = atom['mk'](rso, x[0])      # objective must be scalar: apply the element-wise atom to one entry
 
